@@ -7,27 +7,65 @@ Close Scope Z_scope.
 Local Open Scope float_scope.
 
 (* the state of one accumulator: five floats are enough for all of them *)
-Record fstate := mkFS { f1 : float; f2 : float; f3 : float; f4 : float; f5 : float; fhas : bool }.
+Record fstate := mkFS { f1 : float; f2 : float; f3 : float; f4 : float; f5 : float; fhas : bool; fpts : list float }.
 
-Definition fs0 : fstate := mkFS 0 0 0 0 0 false.
+Definition fs0 : fstate := mkFS 0 0 0 0 0 false [].
 
-(* AddFunc, by aggregation code: 0 sum 1 max 2 min 3 count 4 avg 5 group 6 stddev 7 stdvar *)
+(* Reset(arg): quantile keeps its argument *)
+Definition fs_reset (arg : float) : fstate := mkFS arg 0 0 0 0 false [].
+
+(* sort.Float64s: NaN sorts first *)
+Definition fless (x y : float) : bool := PrimFloat.ltb x y || (PrimFloat.is_nan x && negb (PrimFloat.is_nan y)).
+Fixpoint finsert (x : float) (l : list float) : list float :=
+  match l with
+  | [] => [x]
+  | y :: r => if fless y x then y :: finsert x r else x :: l
+  end.
+Definition fsort (l : list float) : list float := fold_right finsert [] l.
+
+(* the largest i < n with i <= x, as a float and as an index (x >= 0) *)
+Fixpoint ffloor_upto (n : nat) (x : float) : nat :=
+  match n with
+  | O => O
+  | S k => if PrimFloat.leb (z2f (Z.of_nat n)) x then n else ffloor_upto k x
+  end.
+
+(* quantile(q, points) of scalar_table.go *)
+Definition fquantile (q : float) (points : list float) : float :=
+  match points with
+  | [] => nan
+  | _ =>
+      if PrimFloat.is_nan q then nan
+      else if PrimFloat.ltb q 0 then neg_infinity
+      else if PrimFloat.ltb 1 q then infinity
+      else
+        let sorted := fsort points in
+        let n := length points in
+        let rank := q * (z2f (Z.of_nat n) - 1) in
+        let lo := ffloor_upto n rank in
+        let hi := Nat.min (n - 1) (lo + 1) in
+        let weight := rank - z2f (Z.of_nat lo) in
+        nth lo sorted nan * (1 - weight) + nth hi sorted nan * weight
+  end.
+
+(* AddFunc, by aggregation code: 0 sum 1 max 2 min 3 count 4 avg 5 group 6 stddev 7 stdvar 8 quantile *)
 Definition facc_add (code : N) (s : fstate) (v : float) : fstate :=
   match code with
-  | 0%N => mkFS (f1 s + v) 0 0 0 0 true
-  | 1%N => mkFS (if negb (fhas s) || PrimFloat.ltb (f1 s) v || PrimFloat.is_nan (f1 s) then v else f1 s) 0 0 0 0 true
-  | 2%N => mkFS (if negb (fhas s) || PrimFloat.ltb v (f1 s) || PrimFloat.is_nan (f1 s) then v else f1 s) 0 0 0 0 true
-  | 3%N => mkFS (f1 s + 1) 0 0 0 0 true
-  | 4%N => mkFS (f1 s + 1) (f2 s + v) 0 0 0 true                 (* count, sum *)
-  | 5%N => mkFS 0 0 0 0 0 true
+  | 0%N => mkFS (f1 s + v) 0 0 0 0 true []
+  | 1%N => mkFS (if negb (fhas s) || PrimFloat.ltb (f1 s) v || PrimFloat.is_nan (f1 s) then v else f1 s) 0 0 0 0 true []
+  | 2%N => mkFS (if negb (fhas s) || PrimFloat.ltb v (f1 s) || PrimFloat.is_nan (f1 s) then v else f1 s) 0 0 0 0 true []
+  | 3%N => mkFS (f1 s + 1) 0 0 0 0 true []
+  | 4%N => mkFS (f1 s + 1) (f2 s + v) 0 0 0 true []                 (* count, sum *)
+  | 5%N => mkFS 0 0 0 0 0 true []
+  | 8%N => mkFS (f1 s) 0 0 0 0 true (fpts s ++ [v])                (* quantile: argument, points *)
   | _ =>                                                          (* count, mean, cMean, aux, cAux *)
       let count := f1 s + 1 in
-      if PrimFloat.eqb count 1 then mkFS count v (f3 s) (f4 s) (f5 s) true
+      if PrimFloat.eqb count 1 then mkFS count v (f3 s) (f4 s) (f5 s) true []
       else
         let delta := v - (f2 s + f3 s) in
         let '(mean, cmean) := kahan (delta / count) (f2 s) (f3 s) in
         let '(aux, caux) := kahan (delta * (v - (mean + cmean))) (f4 s) (f5 s) in
-        mkFS count mean cmean aux caux true
+        mkFS count mean cmean aux caux true []
   end.
 
 (* ValueFunc *)
@@ -37,32 +75,33 @@ Definition facc_value (code : N) (s : fstate) : float :=
   | 4%N => f2 s / f1 s
   | 5%N => 1
   | 6%N => PrimFloat.sqrt ((f4 s + f5 s) / f1 s)
-  | _ => (f4 s + f5 s) / f1 s
+  | 7%N => (f4 s + f5 s) / f1 s
+  | _ => fquantile (f1 s) (fpts s)
   end.
 
 Record aggval_case := mkAVC {
-  avc_id : N; avc_fn : N; avc_without : bool; avc_grouping : list N;
+  avc_id : N; avc_fn : N; avc_param : float; avc_without : bool; avc_grouping : list N;
   avc_series : list labels;
   avc_steps : list (Z * list (nat * float));
   avc_expected : list (Z * list (labels * float)) }.
 
 (* hashAggregate over the operand stream: the tables are reused from step to step *)
-Fixpoint aggval_run (code : N) (inputs : list nat) (groups : list labels) (tbl : list (acc fstate))
+Fixpoint aggval_run (code : N) (param : float) (inputs : list nat) (groups : list labels) (tbl : list (acc fstate))
          (steps : list (Z * list (nat * float))) : list (Z * list (labels * float)) :=
   match steps with
   | [] => []
   | (t, vec) :: r =>
-      let tbl' := aggregate float fstate (fun _ => fs0) (facc_add code) inputs 0 tbl vec in
+      let tbl' := aggregate float fstate fs_reset (facc_add code) inputs param tbl vec in
       (t, flat_map (fun g => let a := nth g tbl' (mkAcc fstate false fs0) in
                              if a_has fstate a then [(nth g groups [], facc_value code (a_st fstate a))] else [])
                    (seq 0 (length groups)))
-      :: aggval_run code inputs groups tbl' r
+      :: aggval_run code param inputs groups tbl' r
   end.
 
 Definition aggval_model (c : aggval_case) : list (Z * list (labels * float)) :=
   let keys := map (group_labels (avc_without c) (avc_grouping c)) (avc_series c) in
   let '(inputs, groups) := assign_groups keys [] in
-  aggval_run (avc_fn c) inputs groups (repeat (mkAcc fstate false fs0) (length groups)) (avc_steps c).
+  aggval_run (avc_fn c) (avc_param c) inputs groups (repeat (mkAcc fstate false fs0) (length groups)) (avc_steps c).
 
 Definition aggval_case_ok (c : aggval_case) : bool := steps_eqb (aggval_model c) (avc_expected c).
 
